@@ -140,7 +140,8 @@ def check_outputs(ctx, root, pkgdir, home, what, sig_suffix, args=(), cpp=True, 
             w = mut.PyWorker(py_dir, ents[0], os.path.join(root, "pyio"))
             ctx.ev()
             if not w.hello.get("ready"):
-                ctx.violation("python-import-failed:%s" % sig_suffix, "%s: generated Python package does not import: %s" % (what, w.hello.get("error")), {"case_dir": root, "tb": w.hello.get("tb")})
+                cls = ":ndarray-of-fixed-vector-annotation" if "Too many arguments for numpy.ndarray" in str(w.hello.get("error")) else ""
+                ctx.violation("python-import-failed:%s%s" % (sig_suffix, cls), "%s: generated Python package does not import: %s" % (what, w.hello.get("error")), {"case_dir": root, "tb": w.hello.get("tb")})
                 bad = True
             else:
                 res = w.cmd({"op": "construct"})
